@@ -22,7 +22,7 @@ theorem endBlock_rewards (s : St) : (endBlock s).1.rewards = s.rewards := by
     have e2 := (C15.applyProposals_spec (fun _ _ => True) h2
       ⟨fun _ _ _ => trivial, fun _ _ _ => trivial, fun _ _ _ _ _ => trivial⟩).1.2.2.2.2.2.2.2.2.2.1
     rw [e2, e1]
-  · intro b s1 s2 s' _ _ _ t p2; rw [t.2.2.2.2.2.2.2.2.2.1]; exact p2
+  · intro b s1 s2 s' _ _ _ t p2; rw [t.1.2.2.2.2.2.2.2.2.2.1]; exact p2
   · intro b s1 s2 s4 s5 ups _ _ _ _ p4 hu
     rw [(C15.updateValidators_tfr hu).1.2.2.2.2.2.2.2.2.2.1]; exact p4
 
